@@ -108,6 +108,32 @@ def run(ctx: core.Ctx) -> int:
                        func="ExtendedKalmanFilter.process_model", construct="congruence form",
                        msg=f"the predicted covariance {form!r} is not a sum of congruences X.A.X^T of the (PSD) prior and noise: it is not PSD by construction")
     ctx.floor("PSD-FORM", n, 1, "prediction covariance forms")
+    # UPD-SHAPE: the update's covariance is one of the textbook forms, built from conforming matrix products (no broadcast): with an elementwise
+    # product or a mis-shaped term the posterior is not even symmetric.  (Whether P - K.H.P stays PSD numerically is NOT decided.)
+    ctx.rule("UPD-SHAPE", "posterior covariance is P - K.H.P / (I - K.H).P / Joseph form, from conforming products")
+    sc2 = scenarios.PyEKF(ctx, prog, run=("sensor_model",))
+    scenarios.transfer(sc2.it, ctx, rules={"ARR-MM", "ARR-EW"}, funcs=["ExtendedKalmanFilter.sensor_model"])
+    ctx.rule("ARR-MM", "matrix products conform on name-typed axes")
+    ctx.rule("ARR-EW", "sums conform; `*` between matrices is elementwise, not a product")
+    Pm, Qm, Hm = MatForm.atom("P", True), MatForm.atom("Q", True), MatForm.atom("H")
+    Sm = Hm * Pm * Hm.T() + Qm
+    Km = Pm * Hm.T() * Sm.inv()
+    Im = MatForm.identity()
+    accepted = [Pm - Km * Hm * Pm, (Im - Km * Hm) * Pm * (Im - Km * Hm).T() + Km * Qm * Km.T()]
+    nupd = 0
+    for r in sc2.alts(sc2.results["sensor_model"]):
+        if isinstance(r, TupleV) and len(r.items) == 2 and isinstance(r.items[1], NInst) and r.items[1].origin != "P":
+            cov = r.items[1]
+            form = cov.arr.form if cov.arr is not None else None
+            nupd += 1
+            if form is None:
+                if not any(f.rule in ("ARR-MM", "ARR-EW") for f in ctx.findings):
+                    ctx.error("ExtendedKalmanFilter.sensor_model: the posterior covariance has no derivable normal form")
+                continue
+            ctx.oblige("UPD-SHAPE", f"{F}:ExtendedKalmanFilter.sensor_model", f"posterior covariance = {form!r}", any(form == a for a in accepted), file=F,
+                       func="ExtendedKalmanFilter.sensor_model", construct="posterior covariance form",
+                       msg=f"the posterior covariance {form!r} is none of P - K.H.P, (I - K.H).P, Joseph form")
+    ctx.floor("UPD-SHAPE", nupd, 1, "update return paths")
     # GATE-SITES: other eigen / cholesky / allclose-based asserts in the filter class
     cls = core.need(core.find_class(mod, "ExtendedKalmanFilter"), "python.ExtendedKalmanFilter")
     others = []
